@@ -16,7 +16,14 @@ type faultObs struct {
 	Rd parseObs `json:"rd"` // io.Reader (wrapped in bufio by the parser) failing from the byte offset of rune k
 }
 
+type innerObs struct {
+	K  int      `json:"k"` // the character the failing byte belongs to
+	B  int      `json:"b"` // byte offset of the first failing read
+	Rd parseObs `json:"rd"`
+}
+
 type faultsObs struct {
+	Inner  []innerObs `json:"inner"` // io.Reader failing strictly inside a multi-byte character
 	ID     string     `json:"id"`
 	Src    string     `json:"src"`
 	Len    int        `json:"len"`
@@ -31,7 +38,7 @@ func faultsMode(in *bufio.Scanner, out *json.Encoder) error {
 			return err
 		}
 		n := utf8.RuneCountInString(c.Src)
-		o := faultsObs{ID: c.ID, Src: c.Src, Len: n, Faults: []faultObs{}}
+		o := faultsObs{ID: c.ID, Src: c.Src, Len: n, Faults: []faultObs{}, Inner: []innerObs{}}
 		b := c
 		b.Source = "scanner"
 		o.Base = runParse(b)
@@ -54,6 +61,17 @@ func faultsMode(in *bufio.Scanner, out *json.Encoder) error {
 			bo := offs[k]
 			rd.Fault = &bo
 			o.Faults = append(o.Faults, faultObs{K: k, Sc: runParse(sc), Rd: runParse(rd)})
+			// an io.Reader can also start failing strictly inside a character that takes several bytes
+			if k < n {
+				for b := offs[k] + 1; b < offs[k+1]; b++ {
+					in := c
+					in.Source = "reader"
+					bb := b
+					in.Fault = &bb
+					in.EOFWrap = b%2 == 0
+					o.Inner = append(o.Inner, innerObs{K: k, B: b, Rd: runParse(in)})
+				}
+			}
 		}
 		if err := out.Encode(o); err != nil {
 			return err
